@@ -11,6 +11,7 @@ import (
 	"fmt"
 	"math/rand"
 	"reflect"
+	"time"
 	"unsafe"
 
 	"github.com/cep21/circuit/v4"
@@ -24,9 +25,11 @@ type gThread struct {
 	Max   int64  `json:"max,omitempty"`
 	FbMax int64  `json:"fbmax,omitempty"`
 	FbDis bool   `json:"fbdis,omitempty"`
+	Tmo   int64  `json:"tmo,omitempty"`
 }
 
 type gaugeParams struct {
+	Tmo     int64     `json:"tmo"`
 	Max     int64     `json:"max"`
 	FbMax   int64     `json:"fbmax"`
 	FbDis   bool      `json:"fbdis"`
@@ -65,9 +68,9 @@ func fieldAddr(v reflect.Value, path ...string) unsafe.Pointer {
 var errRun = errors.New("run failed")
 var errFb = errors.New("fallback failed")
 
-func (g *gaugeInst) cfg(max, fbmax int64, fbdis bool) circuit.Config {
+func (g *gaugeInst) cfg(tmo, max, fbmax int64, fbdis bool) circuit.Config {
 	var cfg circuit.Config
-	cfg.Execution.Timeout = -1
+	cfg.Execution.Timeout = time.Duration(tmo)
 	cfg.Execution.MaxConcurrentRequests = max
 	cfg.Fallback.MaxConcurrentRequests = fbmax
 	cfg.Fallback.Disabled = fbdis
@@ -77,9 +80,9 @@ func (g *gaugeInst) cfg(max, fbmax int64, fbdis bool) circuit.Config {
 func (g *gaugeInst) Params() interface{} { return g.p }
 
 func (g *gaugeInst) Build(s *verifsched.Sched) []func() {
-	c := circuit.NewCircuitFromConfig("g", g.cfg(g.p.Max, g.p.FbMax, g.p.FbDis))
+	c := circuit.NewCircuitFromConfig("g", g.cfg(g.p.Tmo, g.p.Max, g.p.FbMax, g.p.FbDis))
 	// NewCircuitFromConfig merges defaults into zero values; set the raw values
-	c.SetConfigThreadSafe(g.cfg(g.p.Max, g.p.FbMax, g.p.FbDis))
+	c.SetConfigThreadSafe(g.cfg(g.p.Tmo, g.p.Max, g.p.FbMax, g.p.FbDis))
 	g.c = c
 	g.inRun, g.inFb, g.maxRun, g.maxFb = 0, 0, 0, 0
 	g.results = make([]int64, len(g.p.Threads))
@@ -90,6 +93,7 @@ func (g *gaugeInst) Build(s *verifsched.Sched) []func() {
 	s.Name(fieldAddr(v, "threadSafeConfig", "Execution", "MaxConcurrentRequests"), "Lmax")
 	s.Name(fieldAddr(v, "threadSafeConfig", "Fallback", "MaxConcurrentRequests"), "Lfbmax")
 	s.Name(fieldAddr(v, "threadSafeConfig", "Fallback", "Disabled"), "Lfbdis")
+	s.Name(fieldAddr(v, "threadSafeConfig", "Execution", "ExecutionTimeout"), "Ltimeout")
 	var bodies []func()
 	for i, t := range g.p.Threads {
 		i, t := i, t
@@ -162,7 +166,7 @@ func (g *gaugeInst) Build(s *verifsched.Sched) []func() {
 				verifsched.Mark("Mdone", code)
 			})
 		case "setter":
-			bodies = append(bodies, func() { c.SetConfigThreadSafe(g.cfg(t.Max, t.FbMax, t.FbDis)) })
+			bodies = append(bodies, func() { c.SetConfigThreadSafe(g.cfg(t.Tmo, t.Max, t.FbMax, t.FbDis)) })
 		case "reader":
 			bodies = append(bodies, func() { _ = c.ConcurrentCommands(); _ = c.ConcurrentFallbacks() })
 		}
@@ -187,7 +191,7 @@ func zc(v int64) string {
 }
 
 func (g *gaugeInst) Init() (string, string) {
-	sh := fmt.Sprintf("ginit %s %s %v", zc(g.p.Max), zc(g.p.FbMax), g.p.FbDis)
+	sh := fmt.Sprintf("ginit %s %s %s %v", zc(g.p.Tmo), zc(g.p.Max), zc(g.p.FbMax), g.p.FbDis)
 	var pool []string
 	for _, t := range g.p.Threads {
 		switch t.Kind {
@@ -196,7 +200,7 @@ func (g *gaugeInst) Init() (string, string) {
 			fb := map[string]string{"none": "FbNone", "ok": "FbOk", "err": "FbErr", "panic": "FbPanic"}[t.Fb]
 			pool = append(pool, fmt.Sprintf("Caller %s %s GStart", run, fb))
 		case "setter":
-			pool = append(pool, fmt.Sprintf("Setter %s %s %v 0%%nat", zc(t.Max), zc(t.FbMax), t.FbDis))
+			pool = append(pool, fmt.Sprintf("Setter %s %s %s %v 0%%nat", zc(t.Tmo), zc(t.Max), zc(t.FbMax), t.FbDis))
 		case "reader":
 			pool = append(pool, "Reader 0%nat")
 		}
@@ -286,24 +290,25 @@ func (g *gaugeInst) Check(s *verifsched.Sched, c *Case) {
 func (gaugeScenario) Corpus() []Instance {
 	return []Instance{
 		// two callers racing for one slot
-		&gaugeInst{p: gaugeParams{Max: 1, FbMax: 1, Threads: []gThread{{Kind: "caller", Run: "ok", Fb: "none"}, {Kind: "caller", Run: "ok", Fb: "none"}}}},
+		&gaugeInst{p: gaugeParams{Tmo: -1, Max: 1, FbMax: 1, Threads: []gThread{{Kind: "caller", Run: "ok", Fb: "none"}, {Kind: "caller", Run: "ok", Fb: "none"}}}},
 		// D9b: limit 5 -> -1 while a caller is between its two (formerly) loads
-		&gaugeInst{p: gaugeParams{Max: 5, FbMax: 5, Threads: []gThread{{Kind: "caller", Run: "ok", Fb: "none"}, {Kind: "setter", Max: -1, FbMax: -1}}}},
+		&gaugeInst{p: gaugeParams{Tmo: int64(time.Hour), Max: 5, FbMax: 5, Threads: []gThread{{Kind: "caller", Run: "ok", Fb: "none"}, {Kind: "setter", Tmo: 0, Max: -1, FbMax: -1}}}},
 		// panics release the gauges; fallback limit 0 rejects
-		&gaugeInst{p: gaugeParams{Max: 2, FbMax: 0, Threads: []gThread{{Kind: "caller", Run: "panic", Fb: "ok"}, {Kind: "caller", Run: "err", Fb: "ok"}, {Kind: "reader"}}}},
-		&gaugeInst{p: gaugeParams{Max: 0, FbMax: 1, Threads: []gThread{{Kind: "caller", Run: "ok", Fb: "panic"}, {Kind: "caller", Run: "ok", Fb: "err"}}}},
+		&gaugeInst{p: gaugeParams{Tmo: -1, Max: 2, FbMax: 0, Threads: []gThread{{Kind: "caller", Run: "panic", Fb: "ok"}, {Kind: "caller", Run: "err", Fb: "ok"}, {Kind: "reader"}}}},
+		&gaugeInst{p: gaugeParams{Tmo: 0, Max: 0, FbMax: 1, Threads: []gThread{{Kind: "caller", Run: "ok", Fb: "panic"}, {Kind: "caller", Run: "ok", Fb: "err"}}}},
 	}
 }
 
 func (gaugeScenario) Draw(r *rand.Rand, i int, tier string) Instance {
-	p := gaugeParams{Max: []int64{-1, 0, 1, 1, 2}[r.Intn(5)], FbMax: []int64{-1, 0, 1, 2}[r.Intn(4)], FbDis: r.Intn(8) == 0}
+	tmos := []int64{-1, 0, int64(time.Hour), 2 * int64(time.Hour)}
+	p := gaugeParams{Tmo: tmos[r.Intn(4)], Max: []int64{-1, 0, 1, 1, 2}[r.Intn(5)], FbMax: []int64{-1, 0, 1, 2}[r.Intn(4)], FbDis: r.Intn(8) == 0}
 	n := 2 + r.Intn(3)
 	for k := 0; k < n; k++ {
 		switch x := r.Intn(10); {
 		case x < 7 || k < 2:
 			p.Threads = append(p.Threads, gThread{Kind: "caller", Run: []string{"ok", "ok", "err", "err", "panic"}[r.Intn(5)], Fb: []string{"none", "none", "ok", "err", "panic"}[r.Intn(5)]})
 		case x < 9:
-			p.Threads = append(p.Threads, gThread{Kind: "setter", Max: []int64{-1, 0, 1, 5}[r.Intn(4)], FbMax: []int64{-1, 0, 1}[r.Intn(3)], FbDis: r.Intn(3) == 0})
+			p.Threads = append(p.Threads, gThread{Kind: "setter", Tmo: tmos[r.Intn(4)], Max: []int64{-1, 0, 1, 5}[r.Intn(4)], FbMax: []int64{-1, 0, 1}[r.Intn(3)], FbDis: r.Intn(3) == 0})
 		default:
 			p.Threads = append(p.Threads, gThread{Kind: "reader"})
 		}
